@@ -168,6 +168,9 @@ class Ctx:
     # ---- violations ----
     def violation(self, replay_obj, tag=None, no_input=False):
         """write a replay file and remember the violation"""
+        if len(self.violations) >= 8:
+            # enough replays to act on: further violations of this run are counted, not written out one by one
+            self.count('violations-beyond-the-first-8'); return self.violations[-1][0]
         n = len(self.violations) + 1
         path = os.path.join(VERIF, 'evidence', 'replays', '%s-%d.json' % (self.pid, n))
         replay_obj = dict(replay_obj)
